@@ -385,29 +385,38 @@ fn specials(v: &str) -> String {
     set.into_iter().collect::<Vec<_>>().join(" ")
 }
 
+type Template = Result<(Vec<Token>, Vec<usize>), String>;
+
 struct Templates {
-    map: HashMap<(&'static str, Dialect), Option<(Vec<Token>, Vec<usize>)>>,
+    map: HashMap<(&'static str, Dialect), Option<Template>>,
 }
 
 impl Templates {
-    fn get(&mut self, p: &'static str, d: Dialect) -> Option<(Vec<Token>, Vec<usize>)> {
+    /// The token sequence of the position rendered with a plain marker name, and where the marker sits.
+    /// `Err`: even the plain name does not come out as identifier tokens (reported by the caller).
+    fn get(&mut self, p: &'static str, d: Dialect) -> Option<Template> {
         self.map
             .entry((p, d))
             .or_insert_with(|| {
                 let sql = match guard(|| render(p, d, MARK)) {
                     Ok(Some(s)) => s,
                     Ok(None) => return None,
-                    Err(e) => panic!("marker rendering of {p} on {d:?} panicked: {e}"),
+                    Err(e) => return Some(Err(format!("rendering with the plain name {MARK} panicked: {e}"))),
                 };
-                let toks = lex(d, &sql).unwrap_or_else(|e| panic!("marker rendering must lex: {sql}: {e:?}"));
+                let toks = match lex(d, &sql) {
+                    Ok(t) => t,
+                    Err(e) => return Some(Err(format!("rendering with the plain name {MARK} does not lex: {sql}: {}", e.msg))),
+                };
                 let slots: Vec<usize> = toks
                     .iter()
                     .enumerate()
                     .filter(|(_, t)| matches!(&t.tok, Tok::Ident(x) if x == MARK))
                     .map(|(i, _)| i)
                     .collect();
-                assert!(!slots.is_empty(), "marker identifier not found in {sql}");
-                Some((toks, slots))
+                if slots.is_empty() {
+                    return Some(Err(format!("the plain name {MARK} is not written as a quoted identifier: {sql}")));
+                }
+                Some(Ok((toks, slots)))
             })
             .clone()
     }
@@ -480,7 +489,12 @@ fn check_one(
     sample: bool,
 ) {
     let (tt, slots) = match tpl.get(p, d) {
-        Some(x) => x,
+        Some(Ok(x)) => x,
+        Some(Err(e)) => {
+            rep.eval();
+            rep.violation("R.ident.lex", d.name(), format!("{p} [plain name]"), json!({"position": p, "error": e}), ctx.shard, n);
+            return;
+        }
         None => return,
     };
     rep.eval();
@@ -574,7 +588,128 @@ fn check_one(
     }
 }
 
+// ---- identifiers that come from `#[derive(Iden)]` / `#[derive(IdenStatic)]` rather than `Alias` ----------
+// (the spelling of derived names is C19's subject; here: whatever the name, it is quoted so that it decodes
+// to itself — the derive writes its own `prepare`, with a non-escaping fast path for plain names)
+
+#[derive(sea_query::Iden)]
+enum DerivedA {
+    Table,
+    #[iden = "no\"te"]
+    Note,
+    #[iden = "am`ount"]
+    Amount,
+    #[iden = "back\\slash"]
+    Back,
+    #[iden(rename = "q\"`x")]
+    Both,
+    Plain,
+}
+
+#[derive(sea_query::Iden)]
+enum DerivedB {
+    #[iden = "t\"b`l"]
+    Table,
+    Plain,
+    #[iden = "last\"one"]
+    Last,
+}
+
+#[derive(sea_query::IdenStatic, Clone, Copy)]
+enum DerivedC {
+    Table,
+    #[iden = "s\"t`a"]
+    Odd,
+    Plain,
+}
+
+#[derive(sea_query::Iden)]
+#[iden = "u\"n`it"]
+struct DerivedUnit;
+
+fn derived_cases() -> Vec<(&'static str, sea_query::DynIden, &'static str)> {
+    use sea_query::IntoIden;
+    vec![
+        ("enum.table-default", DerivedA::Table.into_iden(), "derived_a"),
+        ("enum.rename-dquote(not last)", DerivedA::Note.into_iden(), "no\"te"),
+        ("enum.rename-backtick(not last)", DerivedA::Amount.into_iden(), "am`ount"),
+        ("enum.rename-backslash", DerivedA::Back.into_iden(), "back\\slash"),
+        ("enum.rename-list-both-quotes", DerivedA::Both.into_iden(), "q\"`x"),
+        ("enum.plain-last", DerivedA::Plain.into_iden(), "plain"),
+        ("enum.table-renamed", DerivedB::Table.into_iden(), "t\"b`l"),
+        ("enum.plain-middle", DerivedB::Plain.into_iden(), "plain"),
+        ("enum.rename-dquote(last)", DerivedB::Last.into_iden(), "last\"one"),
+        ("static.table-default", DerivedC::Table.into_iden(), "derived_c"),
+        ("static.rename-both-quotes", DerivedC::Odd.into_iden(), "s\"t`a"),
+        ("static.plain-last", DerivedC::Plain.into_iden(), "plain"),
+        ("unit-struct.renamed", DerivedUnit.into_iden(), "u\"n`it"),
+    ]
+}
+
+fn check_derived(ctx: &Ctx, rep: &mut Report) {
+    use sea_query::{Index, Query, Table};
+    use vcore::lex::Tok;
+    let n0 = 1u64 << 52;
+    for (k, (label, iden, want)) in derived_cases().into_iter().enumerate() {
+        let n = n0 + k as u64;
+        if (ctx.replay.is_none() && ctx.shard != 0) || !ctx.wants(n) {
+            continue;
+        }
+        for d in Dialect::ALL {
+            // the name as a column, a table, an alias, an index name and a column of a schema statement
+            let texts: Vec<(&str, Result<String, String>)> = vec![
+                ("select.column", guard(|| Query::select().column(iden.clone()).from(iden.clone()).to_owned().inline_any(d))),
+                ("select.alias", guard(|| Query::select().expr_as(sea_query::Expr::val(1), iden.clone()).to_owned().inline_any(d))),
+                ("table.create", guard(|| crate::ddl::render_schema(Table::create().table(iden.clone()).col(sea_query::ColumnDef::new(iden.clone()).integer()), d))),
+                ("index.create", guard(|| crate::ddl::render_schema(Index::create().name("ix").table(iden.clone()).col(iden.clone()), d))),
+                ("table.rename", guard(|| crate::ddl::render_schema(Table::rename().table(iden.clone(), iden.clone()), d))),
+            ];
+            for (pos, t) in texts {
+                rep.eval();
+                rep.note("derived_positions", format!("{}:{pos}:{label}", d.name()));
+                let sig = format!("derived {label} at {pos}");
+                let sql = match t {
+                    Ok(s) => s,
+                    Err(pm) => {
+                        rep.violation("R.panic", d.name(), format!("{sig}: {}", panic_sig(&pm)), json!({"panic": pm}), ctx.shard, n);
+                        continue;
+                    }
+                };
+                match lex(d, &sql) {
+                    Err(e) => rep.violation("R.ident.lex", d.name(), sig, json!({"name": show(want), "sql": show(&sql), "lex_error": e.msg}), ctx.shard, n),
+                    Ok(toks) => {
+                        let idents: Vec<&String> = toks.iter().filter_map(|t| if let Tok::Ident(i) = &t.tok { Some(i) } else { None }).collect();
+                        let expect_count = match pos {
+                            "select.alias" => 1,
+                            "index.create" => 3,
+                            _ => 2,
+                        };
+                        let bad = idents.iter().filter(|i| i.as_str() != "ix").any(|i| i.as_str() != want) || idents.len() != expect_count;
+                        if bad {
+                            rep.violation("R.ident.decode", d.name(), sig, json!({"name": show(want), "sql": show(&sql), "decoded_identifiers": format!("{idents:?}")}), ctx.shard, n);
+                        } else {
+                            rep.count("derived_identifiers_decoded", idents.len() as u64);
+                            rep.nontrivial(hash_str(&sql));
+                        }
+                    }
+                }
+            }
+        }
+    }
+}
+
+trait InlineAny {
+    fn inline_any(&self, d: Dialect) -> String;
+}
+impl InlineAny for sea_query::SelectStatement {
+    fn inline_any(&self, d: Dialect) -> String {
+        let mut s = String::new();
+        self.build_collect_any(crate::util::qb(d), &mut s)
+    }
+}
+
 pub fn check(ctx: &Ctx, rep: &mut Report) {
+    check_derived(ctx, rep);
     let db = Db::memory();
     db.exec_script("CREATE TABLE t(c INTEGER, id INTEGER); CREATE TABLE u(id INTEGER PRIMARY KEY, c INTEGER)")
         .unwrap();
@@ -614,6 +749,7 @@ pub fn check(ctx: &Ctx, rep: &mut Report) {
         if !ctx.wants(n) {
             continue;
         }
+        crate::apply::set_route_seed(ctx.seed ^ n.wrapping_mul(0x9E3779B97F4A7C15));
         let mut rng = ctx.rng("rand", k);
         let mut v = rng.string_from(&ALPHA, 32, true);
         v.retain(|c| c != '\0');
